@@ -25,7 +25,7 @@ ASSUMPTIONS = ['an interrupted cache write leaves the entry missing, empty or a 
 def budget(tier):
     if tier == 'quick':
         return {'shards': 16, 'examples': 25, 'wall': 240}
-    return {'shards': 16, 'examples': 600, 'wall': 2400}
+    return {'shards': 16, 'examples': 2000, 'wall': 2400}
 
 
 fileset = st.lists(st.tuples(st.integers(0, 4), st.integers(0, 3)), min_size=1, max_size=3).map(lambda l: [list(x) for x in l])
